@@ -405,6 +405,43 @@ def run(ctx):
                (f"{bad_math[0][0].ident} applies `{_ast.unparse(bad_math[0][1])[:50]}` to a stored field: Python's math.exp raises OverflowError above 709.78 where the array exp returns inf, "
                 "so building a weighted set whose log-evidence exceeds that -- a constant added to the log-likelihood is enough -- raises instead of giving log-evidence, relative error and ESS") if bad_math else "",
                disc="python-math")
+    # ---- what concatenate() returns for a weighted set carries the evidence its constructor just computed from the joined weights: nothing in the
+    #      concatenate that Samples resolves to writes log_evidence / log_w / weights on the result afterwards (selections of one parent share the parent's
+    #      log_evidence by design of __getitem__, so "copy what the inputs agree on" stamps the parent's value on a set with other members)
+    S_ = repo.cls("aspire.samples:Samples")
+    cat_ = S_.resolve("concatenate")
+    DERIVED = ("log_evidence", "log_evidence_error", "log_w", "weights")
+    if cat_ is None:
+        ctx.unknown("C02.z", S_.ident, "src/aspire/samples.py", "Samples.concatenate not found", disc="concatenate")
+    else:
+        chain_, seen_ = [cat_], {cat_.ident}
+        # follow super().concatenate(...) through the classes of Samples' MRO
+        owner_ = cat_.cls
+        while owner_ is not None and any(isinstance(n_, _ast.Call) and isinstance(n_.func, _ast.Attribute) and n_.func.attr == "concatenate" and isinstance(n_.func.value, _ast.Call)
+                                         and isinstance(n_.func.value.func, _ast.Name) and n_.func.value.func.id == "super" for n_ in _wnn(chain_[-1].node)):
+            nxt_ = S_.resolve_after(owner_, "concatenate")
+            if nxt_ is None or nxt_.ident in seen_:
+                break
+            chain_.append(nxt_)
+            seen_.add(nxt_.ident)
+            owner_ = nxt_.cls
+        bad_cat = []
+        for f_ in chain_:
+            for n_ in _wnn(f_.node):
+                if isinstance(n_, (_ast.Assign, _ast.AugAssign, _ast.AnnAssign)):
+                    for t_ in (n_.targets if isinstance(n_, _ast.Assign) else [n_.target]):
+                        if isinstance(t_, _ast.Attribute) and t_.attr in DERIVED:
+                            bad_cat.append((f_, n_, t_.attr))
+                if isinstance(n_, _ast.Call) and isinstance(n_.func, _ast.Name) and n_.func.id == "setattr" and len(n_.args) == 3:
+                    k_ = n_.args[1]
+                    if not isinstance(k_, _ast.Constant) or k_.value in DERIVED:
+                        bad_cat.append((f_, n_, k_.value if isinstance(k_, _ast.Constant) else f"<{_ast.unparse(k_)}>"))
+        ctx.count("concatenate_bodies_checked_for_Samples", len(chain_))
+        ctx.decide(not bad_cat, "C02.z", S_.ident, loc_of(bad_cat[0][0], bad_cat[0][1]) if bad_cat else loc_of(cat_),
+                   f"the set Samples.concatenate() returns keeps the log-evidence its constructor computed from the joined weights ({', '.join(f.ident.split(':')[1] for f in chain_)} write none of {list(DERIVED)})",
+                   (f"{bad_cat[0][0].ident.split(':')[1]} writes {bad_cat[0][2]} on the set it returns after the constructor has computed the weights of the joined set: "
+                    "for selections of one parent (which all carry the parent's log_evidence) the result reports the parent's evidence, not the log of the mean of its own weights") if bad_cat else "",
+                   disc="concatenate")
     # ---- derived weight quantities are functions of the current log-weights: nothing computed from log_w is cached across a recomputation
     from . import cachecoh
     cachecoh.rule(ctx, "C02.stale", ("aspire.samples",), "a weight-derived value (scaled weights, efficiency, ESS) read after compute_weights() still belongs to the previous log-weights")
@@ -550,6 +587,8 @@ MUTANTS += [
       "x, _ = self.prior_flow.sample_and_log_prob(n_samples)\n            _, log_q = self.prior_flow.sample_and_log_prob(n_samples)", "C02init.init"),
 ]
 MUTANTS += [
+    M("concatenate copies the evidence the inputs agree on", "src/aspire/samples.py", "xp = samples[0].xp\n        return cls(\n            x=xp.concatenate([s.x for s in samples], axis=0),", "xp = samples[0].xp\n        out = cls(\n            x=xp.concatenate([s.x for s in samples], axis=0),", "C02.z",
+      more=[("parameters=samples[0].parameters,\n            dtype=samples[0].dtype,\n        )\n\n    @classmethod\n    def from_samples(", "parameters=samples[0].parameters,\n            dtype=samples[0].dtype,\n        )\n        first = samples[0]\n        if getattr(first, \"log_evidence\", None) is not None and all(s.log_evidence == first.log_evidence for s in samples):\n            out.log_evidence = first.log_evidence\n        return out\n\n    @classmethod\n    def from_samples(")]),
     M("scaled weights cached on first use", "src/aspire/samples.py", "@property\n    def scaled_weights(self):", "@cached_property\n    def scaled_weights(self):", "C02.stale",
       more=[("import math\n", "import math\nfrom functools import cached_property\n")]),
 ]
